@@ -16,4 +16,5 @@ def run_all(chk, fsets, tier):
     import rules_ivl
     for fs in fsets:
         rules_ivl.run_c03_roundtrip(chk, facts.load(fs), fs, tier)
+    rules_ivl.run_golomb(chk, facts.load(fsets[0]), fsets[0], tier, "C03")
     chk.trust("rustc MIR, exporter, contract table, LP entailment; lemmas L4-L7 and the stream-domain assumption are listed, not discharged")
